@@ -111,7 +111,7 @@ def nontrivial(payload, md):
 
 
 RULE = ('every datagram is delivered to twin real node objects whose receive buffers are pre-filled with 0x00 / 0xA5 '
-        '(link-time recvfrom wrapper) and to the extracted model; compared after every datagram. '
+        'and to a third instance whose receive buffer still holds the previous datagrams of the case (link-time recvfrom wrapper) and to the extracted model; compared after every datagram. '
         + ' || '.join(m.RULE for m in PARTS) +
         '; non-trivial = at least one datagram of the case was accepted and changed handler state/output; '
         'distinct = distinct model output line')
@@ -128,15 +128,20 @@ LEVEL_TEXT = ('Each receive handler is modelled in Coq as a program of explicit 
               'the received length (hence never out of bounds and never influenced by stale bytes), never runs out of '
               'fuel and never divides by zero, for: ' + ', '.join(_PROVED) + '.  PARTIAL: ShowNet is modelled as the '
               'code is (sizeof-of-a-pointer bound, known finding C06-shownet-sizeof-pointer): no-Oob and stale-freedom '
-              'are refuted by witnesses and proved only for datagrams on which the handler reads nothing at or beyond '
-              'the received length (termination / no division by zero hold for all); the handler with the proposed fix '
-              'is proved for all datagrams.  ' +
+              'are refuted by witnesses and proved for datagrams on which the handler reads nothing at or beyond the '
+              'received length (sn_within), in particular for every datagram satisfying the syntactic guard sn_syn '
+              '(dropped before an unreceived field is read, or the whole claimed block was received; proved to imply '
+              'sn_within, and sn_within proved to imply its header part); termination / no division by zero hold for '
+              'all; the handler with the proposed fix is proved for all datagrams.  The ACN model also covers the '
+              'E1.33 (RPT) / LLRP / RDM inflators\' header decoders, which olad does not register.  ' +
               ('NOT covered at all: ' + ', '.join(_MISSING) + '.  ' if _MISSING else '') +
               'What plugins do with accepted data afterwards (merging, RDM processing) is outside this property\'s models.')
 LEVEL_NOTE = ('Trusted: Coq kernel, extraction (ExtrOcamlBasic), OCaml/C++ glue incl. the link-time recvfrom/sendto '
               'interposers and poison-filling mock sockets; model = code (in particular: that the Read nodes are exactly '
               'the reads the C++ performs) is validated by differential testing on real node objects under ASan/UBSan '
-              'with twin receive buffers pre-filled with 0x00 / 0xA5, not proved; a stale read whose effect is the same '
-              'for both fill bytes is invisible to the twin comparison; received length <= capacity is assumed of recvfrom.')
+              'with three instances per case: receive buffers pre-filled with 0x00, with 0xA5, and a persistent buffer that '
+              'still holds the earlier datagrams of the case (Art-Net and KiNET use their own poison-filling socket; KiNET '
+              'has no third instance), not proved; a stale read whose effect is the same for all three is invisible; '
+              'received length <= capacity is assumed of recvfrom.')
 TECHNIQUE = 'Coq proof on hand-written executable model + extracted-model/implementation differential correspondence'
 DESIGN_REF = 'DESIGN.md §4 C06'
